@@ -13,3 +13,11 @@ package sha
 //@   returns eq
 //@   pure
 //@   ensures [iff] {C07,C13} eq <==> string(s) == string(other)
+
+//@ regexp sha1Regexp: match(s) ==> len(s) >= 40
+
+//@ func ReadHash
+//@   returns h, err
+//@   pure
+//@   ensures [len] {C19,C03} err == nil ==> len(h) >= 20 && 2 * len(h) == len(hashString)
+//@   ensures [reject] {C19} err != nil ==> len(h) == 0
